@@ -331,10 +331,8 @@ def run(index: RepoIndex, rep) -> None:
     for o in O:
         if o not in g.grid_rot_name:
             continue
-        try:
-            got = gi.call(gm, {me: ('G', 'self'), other: ('O', o)})
-        except AnalysisError as e:
-            got = ('X', str(e))
+        # an uninterpretable Grid.__mul__ is not a verdict: the error goes up (exit 2)
+        got = gi.call(gm, {me: ('G', 'self'), other: ('O', o)})
         exp = ('C', 'Grid', (('C', g.grid_rot_name[o], (('X', 'self.objects'),)),))
         rep.check(got == exp, 'C18.R6', gf, 'Grid.__mul__', gm.node.lineno, f'grid * {o}',
                   f'Grid.__mul__ with {o} yields {got}, not Grid(<rotation function of {o}>'
